@@ -37,11 +37,18 @@ class _Pgrep(object):
 
 
 class KillWorld(object):
-    """answers `pgrep -P <pid>` from a table and records kills (no process is touched)"""
+    """answers `pgrep -P <pid>` from a table and records signals (no process is touched).
 
-    def __init__(self, children):
+    A scripted process dies on SIGKILL, and on SIGTERM unless it ignores it; a pid in `gone` has
+    already exited (a short-lived child): every signal to it raises ProcessLookupError."""
+
+    def __init__(self, children, ignore_term=(), gone=()):
         self.children = children      # pid -> [child pids] in pgrep order
-        self.kills = []
+        self.ignore_term = set(ignore_term)
+        self.gone = set(gone)
+        self.signals = []             # (pid, signal number) in order, including those that raised
+        self.kills = []               # pids that were sent SIGKILL (attempts), in order
+        self.dead = set(gone)
         self.sudo_kills = []
         self.pgreps = []
 
@@ -53,10 +60,20 @@ class KillWorld(object):
         kids = self.children.get(pid, [])
         return _Pgrep((''.join('%d\n' % k for k in kids)).encode('ascii'))
 
-    def kill(self, pid, sig=None):
+    def kill(self, pid, sig=signal.SIGKILL):
         if pid < drive.FAKE_PID_BASE:
-            raise lib.InfraError('refusing to record a kill of a possibly real pid %r' % pid)
-        self.kills.append(pid)
+            raise lib.InfraError('refusing to record a signal for a possibly real pid %r' % pid)
+        sig = int(sig)
+        self.signals.append((pid, sig))
+        if sig == signal.SIGKILL:
+            self.kills.append(pid)
+        if pid in self.gone:
+            raise ProcessLookupError(3, 'No such process')
+        if sig == signal.SIGKILL or (sig == signal.SIGTERM and pid not in self.ignore_term):
+            self.dead.add(pid)
+
+    def alive(self, pids):
+        return [p for p in pids if p not in self.dead]
 
     def sudo_kill(self, pid):
         self.sudo_kills.append(pid)
@@ -72,6 +89,32 @@ class KillWorld(object):
         finally:
             skill.Popen = saved[0]
             setattr(skill, kill_attr, saved[1])
+
+
+class WorkerStub(object):
+    """what `kill_process` may ask of the worker thread: the whole Thread surface it could use. The worker is
+    alive as long as the root process is (its output pipe is open)."""
+    stdout_result, stderr_result = 'o', None
+    name = 'Subprocess stub'
+    daemon = False
+    returncode = None
+    exception = None
+
+    def __init__(self, world, root):
+        self.world = world
+        self.root = root
+        self.joins = []          # (time-out, signals sent so far)
+        self.ident = 4712
+        self.native_id = 4712
+
+    def join(self, timeout=None):
+        self.joins.append((timeout, len(self.world.signals)))
+
+    def is_alive(self):
+        return self.root not in self.world.dead
+
+    def get_pid(self):
+        return self.root
 
 
 def tree_children(tree, table=None):
@@ -162,6 +205,10 @@ class StubThread(object):
     def ident(self):
         return None if self.c.get('start_interrupt') == 'before-launch' else 4711
 
+    name = 'Subprocess stub'
+    daemon = False
+    _pid = property(lambda self: None if self.c.get('start_interrupt') == 'before-launch' else self.c['root'])
+
     def join(self, timeout=None):
         c = self.c
         if self.ended:
@@ -185,6 +232,11 @@ class StubThread(object):
         c = self.c
         if not self.ended:
             return c['join_end'] == 'deadline' or c['join_end'] == 'interrupt'
+        if self.kill_phase_joins > 0:
+            # asked again after signals were sent: the worker lives as long as the root process does;
+            # after an interrupted join the interpreter keeps reporting what it reported before
+            root_alive = c['root'] not in c['world'].dead
+            return (c['alive_reported'] and root_alive) if c['join_end'] == 'interrupt' else root_alive
         return c['alive_reported']
 
     def get_pid(self):
@@ -204,14 +256,14 @@ class StubThread(object):
         return OSError(2, 'scripted') if self.c['worker_raised'] else None
 
 
-def run_decision(sit, tree, kill_tree, uses_sudo, sudo_outcomes=None):
+def run_decision(sit, tree, kill_tree, uses_sudo, sudo_outcomes=None, ignore_term=()):
     """the real `swt.run` on a stub thread; returns the observed trace. With `uses_sudo` the real
     `deliver_kill_signal` runs against a scripted sudo."""
-    world = KillWorld(tree_children(tree))
+    world = KillWorld(tree_children(tree), ignore_term=ignore_term)
     sudo = SudoWorld(sudo_outcomes)
     clock = [1000.0]
     cfg = dict(sit)
-    cfg.update({'root': tree['pid'], 'clock': clock, 't0': clock[0]})
+    cfg.update({'root': tree['pid'], 'clock': clock, 't0': clock[0], 'world': world})
     StubThread.cfg = cfg
     saved = (swt._SubprocessThread, swt.time)
     swt._SubprocessThread = StubThread
@@ -244,6 +296,7 @@ def run_decision(sit, tree, kill_tree, uses_sudo, sudo_outcomes=None):
     trace = [['kill', p] for p in kills] + [['join']] * st.kill_phase_joins + [end]
     return {'trace': trace, 'main_joins': st.main_joins, 'keep_alive': len(keep_alive), 'ret': ret,
             'sudo_calls': [c[3:] for c in sudo.calls], 'privileged_kills': list(world.kills) if uses_sudo else [],
+            'signals': list(world.signals), 'left_alive': world.alive(all_pids(tree)),
             'wrong_channel': bool(sudo.calls) if not uses_sudo else False}
 
 
@@ -290,13 +343,14 @@ def release(layer):
 
 # ------------------------------------------------------------------ real processes
 NODE_SH = r'''#!/bin/sh
-# one node of a process tree: record the pid, start the children, then sleep
-LOG="$1"; D="$2"; F="$3"
-echo "node $$" >> "$LOG"
+# one node of a process tree: record the pid, start the children, then sleep.
+# Every second node ignores SIGTERM (the disposition survives the exec of sleep).
+LOG="$1"; D="$2"; F="$3"; I="$4"
+if [ "$I" = "1" ]; then trap '' TERM; echo "node $$ ignores-term" >> "$LOG"; else echo "node $$" >> "$LOG"; fi
 if [ "$D" -gt 0 ]; then
   i=0
   while [ "$i" -lt "$F" ]; do
-    /bin/sh "$0" "$LOG" $((D-1)) "$F" &
+    /bin/sh "$0" "$LOG" $((D-1)) "$F" $(( (i + 1) % 2 )) &
     i=$((i+1))
   done
 fi
@@ -321,7 +375,8 @@ echo "$B: iterations=1 runtime: 111ms"
 if [ "$MODE" = "hang" ]; then
   i=0
   while [ "$i" -lt "$F" ] && [ "$D" -gt 0 ]; do
-    /bin/sh "$DIR/node.sh" "$LOG" $((D-1)) "$F" &
+    # the nodes do not hold the harness's output pipe: when the harness is gone the worker thread sees EOF
+    /bin/sh "$DIR/node.sh" "$LOG" $((D-1)) "$F" $(( (i + 1) % 2 )) > /dev/null 2>&1 &
     i=$((i+1))
   done
   echo "spawned" >> "$LOG"
